@@ -17,10 +17,10 @@ import (
 )
 
 type Case struct {
-	Grammar string `json:"grammar"` // expr | leafref
+	Grammar string  `json:"grammar"` // expr | leafref
 	Src     fw.BStr `json:"src"`
-	MapFn   bool   `json:"mapfn"`
-	Near    bool   `json:"near,omitempty"` // within one token edit of a valid sentence
+	MapFn   bool    `json:"mapfn"`
+	Near    bool    `json:"near,omitempty"` // within one token edit of a valid sentence
 }
 
 func knownPrefix(p string) bool { return p == "" || p == "p" || p == "q" }
